@@ -386,6 +386,15 @@ class C08(Driver):
         if fin and oc == "ok" and all(th["id"] in tend for th in plan["threads"]):
             if int(fin.get("vms", 0)) != 0:
                 V("C08/teardown/vm-not-torn-down", str(fin))
+        if stale:
+            # once a stale pending entry exists, a message can be written through the dangling VM pointer into
+            # another thread's self-pipe (descriptor and thread-local storage get reused): its loop then sees a
+            # foreign event. Verdicts about delivery and thread life-cycle in such a run are consequences.
+            for v in vs:
+                if any(v.sig.startswith(pfx) for pfx in ("C08/join/", "C08/supervisor/", "C08/thread-body/", "C08/exactly-once/",
+                                                         "C08/order/", "C08/lost-wakeup/", "C08/teardown/", "C08/select/")):
+                    v.detail = v.sig + ": " + v.detail
+                    v.sig = "C08/stale-thread-chan-entry/other-consequence"
         seen, out = set(), []
         for v in vs:
             if v.sig not in seen:
